@@ -144,6 +144,41 @@ func genC03(h *H) {
 		h.do("random-mul512", "mul512rsh320", hx(be32(a.Mod(a, curveN))), hx(be32(b.Mod(b, curveN))))
 		h.do("random-kernel", "kern", append([]string{"Scalar_mul512Rsh320Round"}, wordsDec(a, b)...)...)
 	}
+	// word patterns: 64-bit digits whose two 32-bit words sum to 2^32 or to 2^32-1, are 0 / 1 / all-ones, with the
+	// other digits zero or random (a zero-digit shortcut, a word test with + instead of |, a skipped window)
+	for it := 0; it < 6*h.budget; it++ {
+		words := make([]uint32, 8)
+		for d := 0; d < 4; d++ {
+			var hi, lo uint32
+			switch h.rng.Intn(6) {
+			case 0:
+				hi = h.rng.Uint32() | 1
+				lo = -hi // hi + lo = 2^32
+			case 1:
+				hi = h.rng.Uint32()
+				lo = ^hi // hi + lo = 2^32 - 1
+			case 2:
+				hi, lo = 0, 0
+			case 3:
+				hi, lo = []uint32{0, 1, 0xffffffff}[h.rng.Intn(3)], []uint32{0, 1, 0xffffffff}[h.rng.Intn(3)]
+			default:
+				hi, lo = h.rng.Uint32(), h.rng.Uint32()
+			}
+			words[2*d+1], words[2*d] = hi, lo
+		}
+		k := new(big.Int)
+		for i := 7; i >= 0; i-- {
+			k.Lsh(k, 32)
+			k.Or(k, new(big.Int).SetUint64(uint64(words[i])))
+		}
+		k.Mod(k, curveN)
+		ks := hx(be32(k))
+		h.do("word-pattern-base", "sbmul", ks)
+		h.do("word-pattern-pubkey", "pubkey", ks)
+		if it < 2*h.budget {
+			h.do("word-pattern-var", "smul", ks, G)
+		}
+	}
 	// rounding boundaries of mul512Rsh320Round inside splitK: scalars k with k*z mod 2^(320+64j) within a few
 	// units of the top (the rounding increment carries through j 64-bit digits: 2^-64, 2^-128 … at random),
 	// and just above a multiple (no carry), for both estimate constants z
